@@ -139,6 +139,33 @@ Proof.
     cbn [negb andb]; split_tests; try reflexivity; try discriminate; lia.
 Qed.
 
+(* "every member is a dropped placeholder", however the code says it: all(dropped), not any(not
+   dropped), through a private predicate or in place *)
+Definition all_dropped (l : list mkind) : bool := forallb mk_is_drop l.
+Lemma forallb_all_dropped p l : (forall k, p k = mk_is_drop k) -> forallb p l = all_dropped l.
+Proof.
+  intro H. unfold all_dropped. induction l as [|a t IH]; [reflexivity|]. cbn. rewrite H, IH. reflexivity.
+Qed.
+Lemma existsb_all_dropped p l : (forall k, p k = negb (mk_is_drop k)) ->
+  existsb p l = negb (all_dropped l).
+Proof.
+  intro H. unfold all_dropped. induction l as [|a t IH]; [reflexivity|]. cbn. rewrite H, IH.
+  destruct (mk_is_drop a); reflexivity.
+Qed.
+Ltac norm_dropped l :=
+  repeat match goal with
+         | |- context [forallb ?p l] =>
+             let H := fresh "H" in
+             assert (H : forallb p l = all_dropped l)
+               by (apply forallb_all_dropped; let k := fresh "k" in intro k; destruct k; reflexivity);
+             rewrite H; clear H
+         | |- context [existsb ?p l] =>
+             let H := fresh "H" in
+             assert (H : existsb p l = negb (all_dropped l))
+               by (apply existsb_all_dropped; let k := fresh "k" in intro k; destruct k; reflexivity);
+             rewrite H; clear H
+         end.
+
 Theorem bridge_check_forecasters f params :
   gen_check_forecasters f params = if forecasters_ok f params then Ok tt else Err.
 Proof.
@@ -148,10 +175,10 @@ Proof.
   replace (Z.of_nat (length (m :: t)) =? 0) with false by (cbn [length]; lia).
   cbn [is_nil negb andb]. rewrite bridge_check_names.
   destruct (names_ok (map fst (m :: t)) params); [|reflexivity]. cbn [andb]. cbv zeta.
-  destruct (existsb (fun est => negb (mk_is_drop est)) (map snd (m :: t))); [|reflexivity].
-  cbn [negb andb].
+  generalize (map snd (m :: t)). intro l. norm_dropped l.
+  destruct (all_dropped l); [reflexivity|]. cbn [negb andb].
   rewrite (rforall_forallb _ (fun k => mk_is_drop k || mk_is_forecaster k)).
-  - destruct (forallb _ (map snd (m :: t))); reflexivity.
+  - destruct (forallb _ l); reflexivity.
   - intro k. destruct k; reflexivity.
 Qed.
 
